@@ -287,6 +287,24 @@ def run_dict(tape, env, viol, history, want_c10=False):
     else:
         Value, vf = gen_struct("Value", "c09/value")
     size = 1 + tape.draw("c09/size", 4)
+    if want_c10 and tape.chance("fault/map-creation-refused-once", 8):
+        # a table of thousands of entries on a kernel that charges map memory against the
+        # locked-memory limit: creating it is refused (EPERM) the first time. Whatever the
+        # library does about it, the buffers it passes later fit the map it got
+        size = 3000 + tape.draw("c09/big-size", 3000)
+        refused = []
+        which = 1 + tape.draw("fault/which-map-creation", 4)    # (the Dict's, with luck)
+        seen = [0]
+
+        def refuse_once(cmd):
+            if cmd == 0:
+                seen[0] += 1
+                if seen[0] == which and not refused:
+                    refused.append(True)
+                    env.world.count("fault/map-create-eperm")
+                    return 1
+            return 0
+        kernel.command_fault = refuse_once
     amap = ArrayMap()
     from ebpfcat.ebpf import LocalVar
     from ebpfcat.hashmap import HashMap
@@ -351,9 +369,11 @@ def run_dict(tape, env, viol, history, want_c10=False):
         p = P()
         p.load()
     except Exception as e:
+        kernel.command_fault = None
         viol("program-cannot-be-generated", f"{type(e).__name__}: {e}; {desc}",
              exception=type(e).__name__, part="dict")
         return desc
+    kernel.command_fault = None
     prog = kernel.obj(p.file_descriptor)
     model = {}          # key tuple -> value tuple
     keypool = [tuple(draw_in_range(tape, f, "c09/keyval") for f in kf)
@@ -422,9 +442,48 @@ def run_dict(tape, env, viol, history, want_c10=False):
             history.append(("py_get", vals is not None))
         elif op == 2:      # Python delete / pop
             use_pop = tape.chance("c09/pop", 50)
+            racing = use_pop and key in model and not getattr(kernel, "refused_commands", None) \
+                and tape.chance("c09/program-modifies-the-entry-during-pop", 30)
+            if racing:
+                # the program (another CPU) looks the entry up and modifies a member while
+                # Python pops it: before the n-th system call of the pop. If it gets there
+                # before the entry is taken out, the popped value carries the modification
+                nth = 1 + tape.draw("c09/pop-syscall", 2)
+                calls = [0]
+                ran = []
+
+                def during_pop(cmd):
+                    calls[0] += 1
+                    if calls[0] == nth and not ran:
+                        ran.append(True)
+                        for i, v in enumerate(key):
+                            setattr(p, f"k{i}", v)
+                        p.op = 2
+                        p.found = 0
+                        kernel.command_fault = None
+                        kernel.run_xdp(prog, bytearray(64))
+                        kernel.command_fault = during_pop
+                    return 0
+                kernel.command_fault = during_pop
             try:
                 if use_pop:
-                    got = p.table.pop(mk(Key, key))
+                    try:
+                        got = p.table.pop(mk(Key, key))
+                    finally:
+                        if racing:
+                            kernel.command_fault = None
+                    if racing and ran:
+                        env.world.count("c09/entry-modified-by-the-program-during-pop")
+                        if p.found == 1:
+                            lst = list(model[key])
+                            f = vf[mod_member]
+                            lst[mod_member] = mod_const if struct.calcsize(f) > 1 \
+                                or mod_const < 128 or f == "B" else mod_const - 256
+                            model[key] = tuple(lst)
+                        else:
+                            viol("program-lookup-missed", f"{where}: the program ran before "
+                                 f"system call {nth} of pop({key}) and did not find the entry "
+                                 f"(marker {p.found})", side="program", during_pop=True)
                     vals = tuple(getattr(got, f"m{i}") for i in range(len(vf)))
                     if vals != model.get(key):
                         viol("python-lookup-differs", f"{where}: pop({key}) returned {vals}, "
